@@ -43,6 +43,13 @@ DESCRIBE = {
 }
 RULE = ("coolers over 1-3 chromosomes, n <= 7 (quick) / <= 10 (thorough) bins: fixed width (full or short last bin), variable width, "
         "one-bin chromosomes, variable tables whose coarsened bins look uniform with and without a longer last bin (D1 regression); "
+        "bin width 10 or any of 1..200 / round thousands to 10^6; tables DESIGNED for one factor k (`near-*`, 1-4 chromosomes, <= 12 "
+        "bins): every chromosome = full blocks of k bins adding up to W = k*w (k bins of w, or W cut at random) + a tail of <= k "
+        "bins shorter than / equal to / longer than W, chromosomes of at most k bins (one coarse bin, down to one bin) shorter or "
+        "longer than W with a bin starting at or beyond W, placed first / in the middle / last, fixed-width sources with a long "
+        "last bin, every chromosome <= k bins; a pixel on every bin starting on a multiple of W and on every bin of a one-coarse-bin "
+        "chromosome; size sweep (`sizes-*`): two chromosomes of 1-5 coarse bins of width W in 49..2000 / k*(10..400) / k*round, one "
+        "coarsening each (both re-binning paths of _aggregate are counted per source uniformity in the distribution); "
         "symmetric-upper and square; k = 2..n+1; chunksize exhaustive 1..nnz+1 for nnz <= 8; nproc {1} quick (+2 pool cases) / "
         "{1,2,4} thorough; chains k1,k2 in 2..4; merge/coarsen of 2-3 inputs; non-trivial = >= 2 pixels and >= 3 bins; distinct by "
         "canonical JSON")
@@ -132,11 +139,16 @@ def _coarsen(case):
     src = os.path.join(d, f"c-{_tag()}-src.cool")
     out = os.path.join(d, f"c-{_tag()}-out.cool")
     nq = 0
+    paths = {}
     try:
         gen.write_cooler(src, bins, pixels, symm=symm)
         for k in _ks(case):
             for cs in _chunksizes(case):
                 m = _ask_coarsen(bins, pixels, k, cs)
+                # which re-binning path the (Lean) coarse table selects, against the uniformity of the source
+                key = ("src_%s.coarse_%s" % ("uniform" if m.get("old_binsize") is not None else "variable",
+                                             "uniform(fixed path)" if m["new_binsize"] is not None else "variable(search path)"))
+                paths[key] = paths.get(key, 0) + 1
                 for nproc in case.get("nprocs", [1]):
                     _unlink(out)
                     impl(cooler.coarsen_cooler, src, out, k, chunksize=cs, nproc=nproc)
@@ -146,7 +158,7 @@ def _coarsen(case):
                         return r
                     if cooler.Cooler(out).storage_mode != cooler.Cooler(src).storage_mode:
                         return {"mismatch": True, "k": k, "what": "storage mode changed"}
-        return {"stats": {"coarsenings": nq}}
+        return {"stats": dict(paths, coarsenings=nq)}
     finally:
         _unlink(src, out)
 
@@ -487,14 +499,28 @@ CHECKS = {"value_columns": _value_columns, "coarsen": _coarsen, "chain": _chain,
 D1_TABLE = gen.chrom_bins(0, [10, 10, 10, 10, 25, 5]) + gen.chrom_bins(1, [10, 10])
 
 
-def _widths(rng, style, nb, k=2):
-    """widths of one chromosome with nb bins"""
+ROUND_WIDTHS = [1000, 2000, 5000, 10000, 25000, 40000, 100000, 250000, 500000, 1000000]
+
+
+def _src_width(rng):
+    """a source bin width: anything in 1..200, or a round number of bases"""
+    return rng.randint(1, 200) if rng.random() < 0.7 else rng.choice(ROUND_WIDTHS)
+
+
+def _cuts(rng, total, parts):
+    """`parts` positive widths adding up to `total` (total >= parts)"""
+    cuts = sorted(rng.sample(range(1, total), parts - 1)) if parts > 1 else []
+    return [b_ - a_ for a_, b_ in zip([0] + cuts, cuts + [total])]
+
+
+def _widths(rng, style, nb, k=2, base=10):
+    """widths of one chromosome with nb bins; `base` is the table's bin width (fixed styles) / width scale (variable ones)"""
     if style == "fixed":
-        return [10] * nb
+        return [base] * nb
     if style == "short":
-        return [10] * (nb - 1) + [rng.randint(1, 9)]
+        return [base] * (nb - 1) + [rng.randint(1, max(1, base - 1))]
     if style == "var":
-        return [rng.randint(1, 9) for _ in range(nb)]
+        return [rng.randint(1, max(1, base - 1)) for _ in range(nb)]
     if style == "unit":
         return [1] * nb
     if style == "giga":
@@ -502,17 +528,16 @@ def _widths(rng, style, nb, k=2):
         # (absolute positions, three or more chromosomes) does not
         return [rng.randint(4, 9) * 10 ** 8 for _ in range(nb)]
     # variable table whose k-coarsened bins look uniform (width b), last coarse bin shorter / equal / longer
-    b = 12
+    b = 12 if base == 10 else max(base, k)
     ws = []
     ngroups = -(-nb // k)
     for g in range(ngroups):
         size = min(k, nb - g * k)
         tot = b
         if g == ngroups - 1:
-            tot = {"looks": rng.choice([b, rng.randint(size, b)]), "looks-long": b + rng.randint(1, 9)}[style]
+            tot = {"looks": rng.choice([b, rng.randint(size, b)]), "looks-long": b + rng.randint(1, max(9, b // 2))}[style]
         tot = max(tot, size)
-        cuts = sorted(rng.sample(range(1, tot), size - 1)) if size > 1 else []
-        ws += [b_ - a_ for a_, b_ in zip([0] + cuts, cuts + [tot])]
+        ws += _cuts(rng, tot, size)
     return ws
 
 
@@ -525,10 +550,140 @@ def _table(rng, nmax, style=None, k=2):
     if style == "giga":
         n = max(n, 6)
         layout = [2] * (n // 2) + ([1] if n % 2 else [])
+    # the table's bin width: the classic 10, or any width in 1..200 / a round number of bases (the coarse width is k times it)
+    base = 10 if rng.random() < 0.4 else _src_width(rng)
     bins = []
     for c, nb in enumerate(layout):
-        bins += gen.chrom_bins(c, _widths(rng, style, nb, k))
+        bins += gen.chrom_bins(c, _widths(rng, style, nb, k, base))
     return bins, style
+
+
+def _near_table(rng, nmax, k=None):
+    """A source table designed for ONE factor k whose k-coarsened table is uniform, or uniform but for one feature, whatever
+    the source looks like.  W = k*w is the coarse width (w in 1..200 or a round number of bases).  Every chromosome is
+    `g` full blocks of k bins adding up to exactly W (k bins of w, or W cut at random into k bins) followed by a tail of
+    s <= k bins that is shorter than / equal to / longer than W; g = 0 gives a chromosome of at most k bins (ONE coarse bin,
+    down to one-bin chromosomes) shorter or longer than the common width.  Chromosomes are shuffled, so such a chromosome
+    sits first, in the middle or last.  Fixed-width sources get a short, full or LONG last bin (a long last bin after
+    fewer than k-1 bins of a block still gives a coarse bin <= W: source not uniform, coarse table uniform).  With
+    probability ~1/8 every chromosome has at most k bins (coarse table: one bin per chromosome, no common width).
+    Few bins, large coordinates."""
+    k = k or rng.choice([2, 2, 2, 3, 3, 4, 5])
+    w = _src_width(rng)
+    W = w * k
+    src = rng.choice(["fixed", "var", "var", "mixed"])
+    budget = max(nmax + 3, 2 * k + 2)
+    nch = rng.choice([1, 2, 2, 3, 3, 4])
+    all_single = rng.random() < 0.12
+    single = [all_single or (c > 0 and rng.random() < 0.5) for c in range(nch)]
+    while single.count(False) > 1 and single.count(False) * (k + 1) + single.count(True) > budget:
+        single[len(single) - 1 - single[::-1].index(False)] = True        # too many bins: the last such chromosome gets <= k
+    nbody = single.count(False)
+    # bins of the one-coarse-bin chromosomes first (1..k each, as many as a coarse bin can hold half of the time), the
+    # chromosomes with full blocks share what is left (each at least one block and one more bin when that fits)
+    plan = [None] * nch
+    left = budget - nbody * (k + 1)
+    for c in range(nch):
+        if single[c]:
+            rest = sum(single[c + 1:])
+            s = max(1, min(k if rng.random() < 0.5 else rng.randint(1, k), left - rest))
+            left -= s
+            plan[c] = (0, s)
+    left = max(left, 0) + nbody * (k + 1)
+    bodies = [c for c in range(nch) if not single[c]]
+    for t, c in enumerate(bodies):
+        share = max(k + 1, left - (len(bodies) - t - 1) * (k + 1))
+        g = rng.randint(1, max(1, min(3, (share - 1) // k)))
+        s = rng.randint(1, max(1, min(k, share - g * k)))
+        if rng.random() < 0.25:
+            s = 0                                                       # the chromosome ends on a block boundary
+        left -= g * k + s
+        plan[c] = (g, s)
+    chroms = []
+    for g, s in plan:
+        rel = rng.choice(["short", "equal", "long", "long", "long"] if g == 0 else ["short", "short", "equal", "equal", "equal", "long"])
+        fixed = src == "fixed" or (src == "mixed" and rng.random() < (0.5 if g else 0.3))
+        ws = []
+        for _ in range(g):
+            ws += [w] * k if fixed else _cuts(rng, W, k)
+        if s and fixed:
+            ws += [w] * (s - 1) + [{"short": rng.randint(1, w), "equal": w, "long": w + rng.randint(1, 2 * w)}[rel]]
+        elif s:
+            T = {"short": rng.randint(s, W), "equal": W, "long": W + rng.randint(1, 2 * W)}[rel]
+            if rel == "long" and s >= 2 and rng.random() < 0.75:
+                # the LAST bin of the tail starts at or beyond the common width
+                t1 = rng.randint(W, T - 1)
+                ws += _cuts(rng, t1, s - 1) + [T - t1]
+            else:
+                ws += _cuts(rng, T, s)
+        chroms.append(ws)
+    rng.shuffle(chroms)
+    bins = []
+    for c, ws in enumerate(chroms):
+        bins += gen.chrom_bins(c, ws)
+    return bins, k, W, src
+
+
+def _size_sweep(rng):
+    """coarse bin SIZES: a small two-chromosome cooler whose k-coarsened table is uniform with width W = k*w (w in 1..200 or a
+    round number of bases; variable-width sources: any W), several coarse bins per chromosome, a pixel on every bin that
+    starts on an exact multiple of W, ONE coarsening (the designed k, one chunk size).  Few bins, large coordinates."""
+    k = rng.choice([2, 2, 3])
+    fixed = rng.random() < 0.5
+    # the small sizes (1..12) are every other style's; here mostly sizes no other style has
+    w = rng.choice(ROUND_WIDTHS) if rng.random() < 0.15 else rng.randint(10, 400)
+    W = w * k if fixed else rng.choice([w * k, rng.randint(49, 2000), rng.randint(49, 2000), rng.randint(49, 400)])
+    chroms = []
+    for g in (rng.randint(3, 5), rng.randint(1, 3)):
+        ws = []
+        for _ in range(g):
+            ws += [w] * k if fixed else _cuts(rng, W, k)
+        if rng.random() < 0.4:                                          # a shorter last coarse bin
+            ws += [rng.randint(1, w)] if fixed else _cuts(rng, rng.randint(1, W), 1)
+        chroms.append(ws)
+    if rng.random() < 0.5:
+        chroms.reverse()
+    bins = gen.chrom_bins(0, chroms[0]) + gen.chrom_bins(1, chroms[1])
+    n = len(bins)
+    symm = rng.random() < 0.6
+    marks = [i for i, (_, start, _) in enumerate(bins) if start % W == 0]
+    cells = {(i, i) for i in marks}
+    for i in marks:
+        for j in marks:
+            if rng.random() < 0.3 and (i <= j or not symm):
+                cells.add((i, j))
+    for _ in range(rng.randint(0, 6)):
+        i, j = rng.randrange(n), rng.randrange(n)
+        cells.add((min(i, j), max(i, j)) if symm else (i, j))
+    px = [[i, j, 1 + i * (n + 1) + j * 3 + (7 if i == j else 0)] for i, j in sorted(cells)]
+    return {"bins": bins, "pixels": px, "symm": symm, "style": "sizes-" + ("fixed" if fixed else "var"), "ks": [k],
+            "chunksizes": [rng.choice([1, 2, 3, len(px) // 2 + 1, len(px) + 1])], "design": {"k": k, "coarse_width": W}}
+
+
+def _near_cooler(rng, nmax, k=None):
+    """a cooler over a `_near_table`; every bin that starts on an exact multiple of the coarse width and every bin of a
+    chromosome of at most k bins carries a pixel"""
+    bins, k, W, src = _near_table(rng, nmax, k)
+    n = len(bins)
+    symm = rng.random() < 0.6
+    px = gen.matrix_kinds(rng, n, symm, rng.choice(["full", "full", "dense-random", "dense-random", "random", "nodiag", "gaps"]))
+    counts = {}
+    for c, _, _ in bins:
+        counts[c] = counts.get(c, 0) + 1
+    have = {(i, j) for i, j, _ in px}
+    for i, (c, start, _) in enumerate(bins):
+        if start > 0 and (start % W == 0 or counts[c] <= k) and (i, i) not in have:
+            px.append([i, i, 1 + i * (n + 1) + i * 3 + 7])
+    px.sort()
+    ks = {k}
+    if rng.random() < 0.5:
+        ks.add(rng.choice([k + 1, 2 * k, max(counts.values()), max(2, max(counts.values()) - 1), n + 1]))
+    nnz = len(px)
+    cs = {1, rng.randint(1, nnz + 1), nnz + 1}
+    if nnz > 3:
+        cs.add(rng.randint(2, nnz - 1))
+    return {"bins": bins, "pixels": px, "symm": symm, "style": "near-" + src, "ks": sorted(x for x in ks if x >= 2),
+            "chunksizes": sorted(cs), "design": {"k": k, "coarse_width": W}}
 
 
 def _cooler(rng, nmax, style=None, k=2):
@@ -571,14 +726,36 @@ def cases(tier, rng):
             c["nprocs"] = [1, rng.choice([2, 4])]
             c["chunksizes"] = sorted({1, 2, rng.randint(1, len(c["pixels"]) + 1)})
         yield "coarsen", c
+    # sources whose COARSENED table is uniform or nearly so whatever the source looks like (and the converse), coarse widths
+    # k * (1..200 | round thousands): both re-binning paths of _aggregate on tables where they differ
+    for _ in range(180 if thorough else 48):
+        c = _near_cooler(rng, nmax)
+        if thorough and rng.random() < 0.1:
+            c["nprocs"] = [1, 2]
+        yield "coarsen", c
+    # coarse bin sizes well beyond the small ones, one coarsening per table
+    for _ in range(400 if thorough else 160):
+        yield "coarsen", _size_sweep(rng)
     for _ in range(90 if thorough else 12):
         c = _limit(rng, _cooler(rng, nmax), thorough)
+        c.pop("style")
+        yield "coarsener", c
+    for _ in range(30 if thorough else 8):
+        c = _near_cooler(rng, nmax)
         c.pop("style")
         yield "coarsener", c
     # chains: k1 then k2 == k1*k2 (fixed-width tables; variable ones as well, each step is L0 anyway)
     for _ in range(160 if thorough else 20):
         c = _cooler(rng, nmax + 3, rng.choice(["fixed", "fixed", "short", "unit", "var"]))
         c.update(k1=rng.randint(2, 4), k2=rng.randint(2, 4), cs1=rng.randint(1, 6), cs2=rng.randint(1, 6))
+        yield "chain", c
+    for _ in range(40 if thorough else 8):
+        # the INTERMEDIATE table (after k1) is the uniform-looking one; the second step starts from it
+        k1 = rng.randint(2, 4)
+        c = _near_cooler(rng, nmax + 3, k1)
+        for key in ("ks", "chunksizes"):
+            c.pop(key)
+        c.update(k1=k1, k2=rng.randint(2, 4), cs1=rng.randint(1, 6), cs2=rng.randint(1, 6))
         yield "chain", c
     # merge / coarsen interleavings
     for _ in range(110 if thorough else 14):
@@ -590,11 +767,18 @@ def cases(tier, rng):
             ins[0] = gen.matrix_kinds(rng, n, symm, "full")
         yield "merge_coarsen", {"bins": bins, "inputs": ins, "k": rng.randint(2, n + 1), "symm": symm,
                                 "cs": rng.randint(1, 6), "mergebuf": rng.randint(1, 8)}
+    for _ in range(24 if thorough else 6):
+        bins, k, _W, _src = _near_table(rng, nmax)
+        n = len(bins)
+        symm = rng.random() < 0.7
+        ins = [gen.matrix_kinds(rng, n, symm, rng.choice(["full", "dense-random", "random", "nodiag"])) for _ in range(rng.randint(2, 3))]
+        yield "merge_coarsen", {"bins": bins, "inputs": ins, "k": k, "symm": symm, "cs": rng.randint(1, 6), "mergebuf": rng.randint(1, 8)}
     for t in range(48 if thorough else 16):
-        bins, style = _table(rng, nmax)
+        near = t % 4 == 3                      # every fourth on a table designed for its factor (see _near_table)
+        bins, k = _near_table(rng, nmax)[:2] if near else (_table(rng, nmax)[0], None)
         px = gen.matrix_kinds(rng, len(bins), True, rng.choice(["full", "dense-random", "random", "nodiag"]))
         c = {"bins": bins, "pixels": px or gen.matrix_kinds(rng, len(bins), True, "full")}
-        c.update(k=rng.randint(2, len(bins) + 1), chunksize=rng.randint(1, 6))
+        c.update(k=k or rng.randint(2, len(bins) + 1), chunksize=rng.randint(1, 6))
         nnz = len(c["pixels"])
         yield "agg", dict(c, agg=["max", "min", "first", "last"][t % 4], column=["count", "w"][(t // 4) % 2],
                           chunksizes=sorted({1, 2, rng.randint(1, nnz + 1), nnz + 1}))
@@ -605,9 +789,14 @@ def cases(tier, rng):
     for _ in range(10 if thorough else 4):
         c = _cooler(rng, nmax)
         yield "cli", dict(c, k=rng.randint(2, len(c["bins"]) + 1), chunksize=rng.randint(1, 6))
+    for _ in range(24 if thorough else 6):
+        c = _near_cooler(rng, nmax)
+        ks, css = c.pop("ks"), c.pop("chunksizes")
+        yield "cli", dict(c, k=ks[0], chunksize=rng.choice(css))
     # value columns and dtypes (library and CLI)
     for t in range(96 if thorough else 24):
-        bins, style = _table(rng, nmax)
+        near = t % 6 == 5
+        bins, kd = _near_table(rng, nmax)[:2] if near else (_table(rng, nmax)[0], None)
         px = gen.matrix_kinds(rng, len(bins), True, rng.choice(["full", "dense-random", "random", "nodiag"]))
         px = px or gen.matrix_kinds(rng, len(bins), True, "full")
         big = t % 4 == 3
@@ -619,7 +808,7 @@ def cases(tier, rng):
                 "agg": {"count": rng.choice([None, None, "sum"]), "w": rng.choice([None, "max", "min", "first", "last", "sum"])},
                 "order": rng.choice([["count", "w"], ["w", "count"]]),
                 "count_dtype": rng.choice([None, "int64"]) if big else None, "explicit_none": rng.random() < 0.3}
-        yield "value_columns", {"bins": bins, "pixels": px, "k": rng.randint(2, len(bins) + 1), "chunksize": rng.randint(1, 6),
+        yield "value_columns", {"bins": bins, "pixels": px, "k": kd or rng.randint(2, len(bins) + 1), "chunksize": rng.randint(1, 6),
                                 "mode": mode}
     # units
     for _ in range(200 if thorough else 60):
@@ -631,6 +820,9 @@ def cases(tier, rng):
         bins, style = _table(rng, nmax + 4)
         yield "bins", {"bins": bins, "ks": list(range(2, min(len(bins), 8) + 2))}
     yield "bins", {"bins": D1_TABLE, "ks": [2, 3, 4, 7]}
+    for _ in range(60 if thorough else 20):
+        bins, k, _W, _src = _near_table(rng, nmax + 4)
+        yield "bins", {"bins": bins, "ks": sorted({k, k + 1, 2 * k})}
 
 
 def nontrivial(name, case):
@@ -653,6 +845,18 @@ def distribution(name, case):
     if name == "coarsen":
         yield f"coarsen.{case.get('style', '?')}.{'symm' if case.get('symm', True) else 'square'}"
         yield f"coarsen.nchroms={len(_lens(case['bins']))}"
+        if "design" in case:
+            W = case["design"]["coarse_width"]
+            yield "coarsen.near.coarse_width" + ("<49" if W < 49 else "=49..999" if W < 1000 else ">=1000")
+            counts = {}
+            for c, _, _ in case["bins"]:
+                counts[c] = counts.get(c, 0) + 1
+            k = case["design"]["k"]
+            lens = _lens(case["bins"])
+            for c in sorted(counts):
+                if counts[c] <= k and lens[c] != W:
+                    pos = "first" if c == 0 else "last" if c == len(lens) - 1 else "middle"
+                    yield f"coarsen.near.one_coarse_bin_chrom.{'longer' if lens[c] > W else 'shorter'}.{pos if len(lens) > 1 else 'only'}"
 
 
 def shrink(name, case):
@@ -685,6 +889,8 @@ def escalate(name, case, rng):
                      "ks": case["ks"], "chunksizes": [1, 3, 1000]})
     for _ in range(60):
         todo.append(_limit(rng, _cooler(rng, 7), False))
+    for _ in range(40):
+        todo.append(_near_cooler(rng, 7))
     # pool-related scenario
     todo.append({"bins": gen.layout_bins([4, 3]), "pixels": gen.matrix_kinds(rng, 7, True, "full"), "symm": True,
                  "ks": [2, 3], "chunksizes": [1, 2, 3], "nprocs": [4]})
